@@ -1,264 +1,64 @@
 import Percival.Driver.Loop
 import Percival.Driver.Netbuf
-import Percival.Spec.ByteStream
+import Percival.Spec.NetbufMon
 /-!
-`pmodel netbufmon`: the C07 monitor.  It reads every op together with what the *implementation* answered
-(the part of the line before ` | `) and judges the answers by the property alone — it knows nothing of
-buffer sizes, growth, compaction or how writes are coalesced:
-
-* reader: the bytes scripted into the kernel form one stream with end-of-stream / error marks in it.  Every
-  `peek` and every success callback must show a prefix of the not yet consumed part of that stream (nothing
-  lost, duplicated or reordered); what was visible stays visible until consumed (also across cancel);
-  a wait for `k` is answered during `spin` with success iff `k` unconsumed bytes precede the next mark,
-  with that mark's status otherwise, and not at all only if the stream ran dry without a mark.
-* writer: what the peer receives in each `spin` must be the next bytes of the concatenation of all writes;
-  if send answers are left over and nothing failed, all of it must have arrived; the failure callback
-  runs exactly when a failing `send` answer was used, once; afterwards no `send` is made at all.
+`pmodel netbufmon`: the C07 monitor.  Thin by construction: the operation line and the implementation's answer
+(the part of its line before ` | `) are parsed into `Spec.NetbufMon.Op` / `Ans`, `Spec.NetbufMon.monStep` judges,
+and the verdict is printed.  What the monitor demands is described in `Spec/NetbufMon.lean`.
 -/
 namespace Percival.Driver.Netbufmon
-open Percival.Driver Percival.Spec.ByteStream
-open Percival.Driver.Netbuf (fmtBytes patBytes argBytes SAns)
+open Percival.Driver Percival.Spec.ByteStream Percival.Spec.NetbufMon
 
-inductive RItem where
-  | data (d : Bytes)
-  | eof
-  | err
+def parseHex64 (s : String) : Option UInt64 :=
+  if s.length = 16 then
+    s.toList.foldlM (fun (acc : Nat) c => (hexVal c).map fun v => acc * 16 + v) 0 |>.map UInt64.ofNat
+  else none
 
-structure St where
-  -- reader
-  items : List RItem := []       -- scripted stream from the first unconsumed byte on
-  known : Nat := 0               -- bytes known to be buffered (visible): a lower bound
-  waiting : Option Nat := none
-  loopJ : Nat := 0
-  loopK : Nat := 0
-  loopN : Nat := 0
-  -- writer
-  pending : Bytes := []          -- written, not yet seen at the peer
-  wq : List SAns := []
-  failed : Bool := false
-  resv : Option Nat := none
+/-- `-`, hex bytes, or `#<n>:<fnv>` -/
+def parseShown (t : String) : Option Shown :=
+  if t = "-" then some .none
+  else match t.toList with
+    | '#' :: rest =>
+      match (String.ofList rest).splitOn ":" with
+      | [n, h] => do pure (.digest (← n.toNat?) (← parseHex64 h))
+      | _ => none
+    | _ => (bytesOfHex t).map .hex
 
-def dataBefore : List RItem → Nat
-  | .data d :: rest => d.length + dataBefore rest
-  | _ => 0
-
-def takeData (n : Nat) : List RItem → Bytes
-  | .data d :: rest => if n ≤ d.length then d.take n else d ++ takeData (n - d.length) rest
-  | _ => []
-
-def dropData (n : Nat) : List RItem → List RItem
-  | .data d :: rest => if n < d.length then .data (d.drop n) :: rest else dropData (n - d.length) rest
-  | l => l
-
-/-- status of the first mark (1 = eof, -1 = error) -/
-def firstMark : List RItem → Option Int
-  | .data _ :: rest => firstMark rest
-  | .eof :: _ => some 1
-  | .err :: _ => some (-1)
-  | [] => none
-
-def dropMark : List RItem → List RItem
-  | .data d :: rest => .data d :: dropMark rest
-  | .eof :: rest => rest
-  | .err :: rest => rest
-  | [] => []
-
-def bad (s : St) (why : String) : St × String := (s, "bad " ++ why)
-
-/-- judge the reader's callback records of one `spin`, in order -/
-partial def judgeRecs (s : St) (recs : List String) : St × Option String :=
-  match recs with
-  | [] =>
-    -- no (further) callback: only right if no wait is outstanding or it cannot be answered yet
-    match s.waiting with
-    | none => (s, none)
-    | some k =>
-      if k ≤ dataBefore s.items then (s, some s!"wait {k} not answered although {dataBefore s.items} unconsumed bytes have arrived")
-      else if (firstMark s.items).isSome then (s, some s!"wait {k} not answered although the stream has ended")
-      else (s, none)
-  | rec :: rest =>
-    match s.waiting with
-    | none => (s, some s!"callback {rec} but no wait is outstanding")
-    | some k =>
-      let avail := dataBefore s.items
-      match rec.splitOn ":" with
-      | "0" :: a :: shownParts =>
-        let shown := ":".intercalate shownParts
-        match a.toNat? with
-        | none => (s, some "unreadable record")
-        | some a =>
-          if avail < k then (s, some s!"success for wait {k} but only {avail} unconsumed bytes have arrived")
-          else if a < k then (s, some s!"success for wait {k} with only {a} bytes buffered")
-          else if a < s.known then (s, some s!"{s.known} bytes were visible, now {a}")
-          else if avail < a then (s, some s!"{a} bytes buffered but only {avail} were sent before the end")
-          else if fmtBytes (takeData k s.items) k ≠ shown then (s, some s!"wait {k}: the bytes shown are not the next {k} bytes of the stream")
-          else
-            let s := { s with known := a, waiting := none }
-            -- the harness' callback: consume j and wait k again while the program lasts
-            if s.loopN > 0 then
-              if s.loopJ ≤ a then
-                judgeRecs { s with items := dropData s.loopJ s.items, known := a - s.loopJ, loopN := s.loopN - 1,
-                                   waiting := some s.loopK } rest
-              else judgeRecs { s with loopN := 0 } rest
-            else judgeRecs s rest
-      | [st] =>
-        match st.toInt? with
-        | some v =>
-          if k ≤ avail then (s, some s!"status {v} for wait {k} although {avail} unconsumed bytes had arrived first")
-          else if firstMark s.items ≠ some v then (s, some s!"status {v} but the stream says {repr (firstMark s.items)}")
-          else judgeRecs { s with items := dropMark s.items, waiting := none, loopN := 0 } rest
-        | none => (s, some "unreadable record")
-      | _ => (s, some "unreadable record")
-
-/-- judge the writer's part of one `spin`: `len` bytes (shown as `shown`) arrived at the peer, the failure
-callback ran `fc` times, `sa` send answers were used -/
-def judgeSend (s : St) (len : Nat) (shown : String) (fc sa : Nat) : St × Option String :=
-  if s.failed then
-    if len ≠ 0 ∨ fc ≠ 0 ∨ sa ≠ 0 then (s, some "the writer has failed, yet it sent / called back / called send again")
-    else (s, none)
-  else if s.pending.length < len then (s, some s!"peer received {len} bytes but only {s.pending.length} were written")
-  else if fmtBytes (s.pending.take len) len ≠ shown then (s, some "peer did not receive the next bytes of the concatenation of the writes")
-  else if s.wq.length < sa then (s, some "more send answers used than scripted")
-  else
-    let used := s.wq.take sa
-    let rest := s.wq.drop sa
-    let accepts := used.filterMap fun a => match a with | .accept n => some n | _ => none
-    let nfail := (used.filter fun a => match a with | .fail => true | _ => false).length
-    let lastIsFail := match used.getLast? with | some .fail => true | _ => false
-    -- every accepting send moves at least one byte and at most what it accepts
-    if len < accepts.length ∨ accepts.foldl (· + ·) 0 < len then (s, some "bytes received do not fit the send answers used")
-    else if fc = 1 then
-      if nfail ≠ 1 ∨ !lastIsFail then (s, some "failure callback without a failing send as the last answer used")
-      else if s.pending.length ≤ len then (s, some "failure although everything had been sent")
-      else ({ s with pending := [], wq := rest, failed := true }, none)
-    else if fc ≠ 0 then (s, some s!"failure callback ran {fc} times")
-    else if nfail ≠ 0 then (s, some "a send failed but the failure callback did not run")
-    else if !rest.isEmpty ∧ len < s.pending.length then (s, some "send answers left over, nothing failed, yet not everything written was sent")
-    else ({ s with pending := s.pending.drop len, wq := rest }, none)
-
-def expect (s : St) (ans : List String) (want : String) (why : String) : St × String :=
-  if ans = [want] then (s, "ok") else bad s why
+/-- `0:<a>:<shown>` or a status -/
+def parseRec (t : String) : Option Rec :=
+  match t.splitOn ":" with
+  | "0" :: a :: shownParts => do pure (.succ (← a.toNat?) (← parseShown (":".intercalate shownParts)))
+  | [st] => st.toInt?.map .status
+  | _ => none
 
 def kv (t key : String) : Option String :=
   if t.startsWith (key ++ "=") then some ((t.drop (key.length + 1)).toString) else none
 
+def parseAns : List String → Ans
+  | ["ok"] => .ok
+  | ["ok", n] => match n.toNat? with | some n => .okN n | none => .other
+  | ["contract"] => .contract
+  | ["bad-op"] => .badOp
+  | ["peek", n, shown] => match n.toNat?, parseShown shown with | some n, some sh => .peek n sh | _, _ => .other
+  | ["spin", r, f, p, a] =>
+    match kv r "r", (kv f "f").bind String.toNat?, kv p "peer", (kv a "sa").bind String.toNat? with
+    | some r, some fc, some p, some sa =>
+      match p.splitOn ":" with
+      | len :: shownParts =>
+        match len.toNat?, parseShown (":".intercalate shownParts),
+              (if r = "-" then some [] else (r.splitOn ",").mapM parseRec) with
+        | some len, some sh, some recs => .spin recs fc len sh sa
+        | _, _, _ => .other
+      | _ => .other
+    | _, _, _, _ => .other
+  | _ => .other
+
 def step (s : St) (op ans : List String) : St × String :=
-  match op with
-  | ["r_wait", k] | ["r_loop", _, k, _] =>
-    match k.toNat? with
-    | some k =>
-      if s.waiting.isSome then expect s ans "contract" "second wait must be refused"
-      else if ans = ["ok"] then
-        let (j, n) := match op with
-          | ["r_loop", j, _, n] => (j.toNat?.getD 0, n.toNat?.getD 0)
-          | _ => (0, 0)
-        ({ s with waiting := some k, loopJ := j, loopK := k, loopN := n }, "ok")
-      else bad s "wait failed"
-    | none => expect s ans "bad-op" "bad op"
-  | ["r_peek"] =>
-    match ans with
-    | ["peek", n, shown] =>
-      match n.toNat? with
-      | some n =>
-        if n < s.known then bad s s!"{s.known} bytes were visible, peek shows {n}"
-        else if dataBefore s.items < n then bad s s!"peek shows {n} bytes, only {dataBefore s.items} were sent before the end"
-        else if fmtBytes (takeData n s.items) n ≠ shown then bad s "peek does not show the next bytes of the stream"
-        else ({ s with known := n }, "ok")
-      | none => bad s "unreadable answer"
-    | _ => bad s "unreadable answer"
-  | ["r_consume", j] =>
-    match j.toNat? with
-    | some j =>
-      if s.waiting.isSome then expect s ans "contract" "consume during a wait must be refused"
-      else if ans = ["ok"] then
-        if dataBefore s.items < j then bad s "consumed more than was sent"
-        else ({ s with items := dropData j s.items, known := s.known - j }, "ok")
-      else if ans = ["contract"] then
-        if j ≤ s.known then bad s s!"consume {j} refused although {s.known} bytes are visible" else (s, "ok")
-      else bad s "unreadable answer"
-    | none => expect s ans "bad-op" "bad op"
-  | ["r_consume_upto", j] =>
-    match j.toNat? with
-    | some j =>
-      if s.waiting.isSome then expect s ans "contract" "consume during a wait must be refused"
-      else match ans with
-        | ["ok", n] =>
-          match n.toNat? with
-          | some n =>
-            if j < n then bad s "consumed more than asked"
-            else if dataBefore s.items < n then bad s "consumed more than was sent"
-            else if n < j ∧ n < s.known then bad s s!"only {n} consumed although {s.known} bytes are visible"
-            else ({ s with items := dropData n s.items, known := if n < j then 0 else s.known - n }, "ok")
-          | none => bad s "unreadable answer"
-        | _ => bad s "unreadable answer"
-    | none => expect s ans "bad-op" "bad op"
-  | ["r_cancel"] =>
-    if ans = ["ok"] then ({ s with waiting := none, loopN := 0 }, "ok") else bad s "cancel failed"
-  | "net_deliver" :: args | "net_deliverp" :: args =>
-    match argBytes (op.head! == "net_deliverp") args with
-    | some d =>
-      if d.isEmpty then expect s ans "bad-op" "bad op"
-      else if ans = ["ok"] then ({ s with items := s.items ++ [.data d] }, "ok") else bad s "script op failed"
-    | none => expect s ans "bad-op" "bad op"
-  | ["net_eagain"] => expect s ans "ok" "script op failed"
-  | ["net_eof"] => if ans = ["ok"] then ({ s with items := s.items ++ [.eof] }, "ok") else bad s "script op failed"
-  | ["net_err"] => if ans = ["ok"] then ({ s with items := s.items ++ [.err] }, "ok") else bad s "script op failed"
-  | ["net_accept", n] =>
-    match n.toNat? with
-    | some n =>
-      if n = 0 then expect s ans "bad-op" "bad op"
-      else if ans = ["ok"] then ({ s with wq := s.wq ++ [.accept n] }, "ok") else bad s "script op failed"
-    | none => expect s ans "bad-op" "bad op"
-  | ["net_weagain"] => if ans = ["ok"] then ({ s with wq := s.wq ++ [.eagain] }, "ok") else bad s "script op failed"
-  | ["net_sendfail"] => if ans = ["ok"] then ({ s with wq := s.wq ++ [.fail] }, "ok") else bad s "script op failed"
-  | ["w_reserve", n] =>
-    match n.toNat? with
-    | some n =>
-      if s.resv.isSome then expect s ans "contract" "reserve while reserved must be refused"
-      else if ans = ["ok"] then ({ s with resv := some n }, "ok") else bad s "reserve failed"
-    | none => expect s ans "bad-op" "bad op"
-  | "w_consume" :: args | "w_consumep" :: args =>
-    match argBytes (op.head! == "w_consumep") args with
-    | some d =>
-      match s.resv with
-      | some n =>
-        if n < d.length then expect s ans "contract" "consume of more than reserved must be refused"
-        else if ans = ["ok"] then
-          ({ s with resv := none, pending := if s.failed then s.pending else s.pending ++ d }, "ok")
-        else bad s "consume failed"
-      | none => expect s ans "contract" "consume without reservation must be refused"
-    | none => expect s ans "bad-op" "bad op"
-  | "w_write" :: args | "w_writep" :: args =>
-    match argBytes (op.head! == "w_writep") args with
-    | some d =>
-      if s.resv.isSome then expect s ans "contract" "write while reserved must be refused"
-      else if ans = ["ok"] then ({ s with pending := if s.failed then s.pending else s.pending ++ d }, "ok")
-      else bad s "write failed"
-    | none => expect s ans "bad-op" "bad op"
-  | ["spin"] =>
-    if s.resv.isSome then expect s ans "contract" "spin while reserved must be refused" else
-    match ans with
-    | ["spin", r, f, p, a] =>
-      match kv r "r", (kv f "f").bind String.toNat?, kv p "peer", (kv a "sa").bind String.toNat? with
-      | some r, some fc, some p, some sa =>
-        match p.splitOn ":" with
-        | len :: shownParts =>
-          let shown := ":".intercalate shownParts
-          match len.toNat? with
-          | some len =>
-            let (s, e1) := judgeRecs s (if r = "-" then [] else r.splitOn ",")
-            match e1 with
-            | some why => bad s why
-            | none =>
-              let (s, e2) := judgeSend s len shown fc sa
-              match e2 with
-              | some why => bad s why
-              | none => (s, "ok")
-          | none => bad s "unreadable answer"
-        | _ => bad s "unreadable answer"
-      | _, _, _, _ => bad s "unreadable answer"
-    | _ => bad s "event loop failed or unreadable answer"
-  | _ => expect s ans "bad-op" "bad op"
+  match Netbuf.parseOp op with
+  | none => (s, if ans = ["bad-op"] then "ok" else "bad bad op")     -- an unreadable line must be refused
+  | some o =>
+    let r := monStep s o (parseAns ans)
+    (r.1, match r.2 with | none => "ok" | some why => "bad " ++ why)
 
 def main (_args : List String) : IO UInt32 := loopMon ({} : St) step
 
